@@ -92,3 +92,21 @@ def replay_zmk(parts, master=None, kcvkeys=None):
     if enc != wantenc or kcv2 != kcv:
         return True, 'encrypted zone key differs', 'C14/enc-zmk'
     return False, 'ok', None
+
+
+def replay_two_cards(pin, pans, key):
+    from cardutil import pinblock
+    from cryptography.hazmat.primitives.ciphers import Cipher, modes
+    from cryptography.hazmat.decrepit.ciphers import algorithms as d_algorithms
+    try:
+        obj = pinblock.Iso4AESPinBlockWithVisaPVV(pin)
+        got = [obj.to_pvv(key, card_number=p) for p in pans]
+    except Exception as ex:
+        return True, '%s: %s' % (type(ex).__name__, ex), 'C14/pvv-exception/pin4'
+    for k, (g, pan) in enumerate(zip(got, pans)):
+        tsp = pan[-12:-1] + '1' + pin[:4]
+        e = Cipher(d_algorithms.TripleDES(bytes.fromhex(key)), modes.ECB()).encryptor()
+        want = _pvv_ref((e.update(bytes.fromhex(tsp)) + e.finalize()).hex())
+        if g != want:
+            return True, 'call %d (card %s) returned %r, the PVV of that card is %r' % (k + 1, pan, g, want), 'C14/pvv-second-card'
+    return False, 'ok', None
